@@ -38,6 +38,12 @@ func childMain(args []string) {
 		fmt.Print(out)
 		return
 	}
+	if len(args) == 2 && args[0] == "env-calls" {
+		// calls through every entry point (answers from the recovered-panic path, ordinary errors, reports) in whatever
+		// environment the parent set up; outcomes go to the named file, nothing is printed
+		childEnvCalls(args[1])
+		return
+	}
 	if len(args) < 3 {
 		fmt.Fprintln(os.Stderr, "child: bad arguments")
 		os.Exit(2)
@@ -53,10 +59,19 @@ func childMain(args []string) {
 		o := lib.Validate(string(p), string(d))
 		if cfg := os.Getenv("VERIF_CHILD_CFG"); cfg != "" {
 			// "<include 0|1>|<report schema iri>|<lexical schema iri>"
-			parts := strings.SplitN(cfg, "|", 3)
-			if len(parts) == 3 {
+			// optionally followed by "|<index of the clock in c09Clocks>"
+			parts := strings.Split(cfg, "|")
+			if len(parts) >= 3 {
 				rc := config.ReportConfiguration{IncludeReportCreationTime: parts[0] == "1", ReportSchemaIri: parts[1], LexicalSchemaIri: parts[2]}
-				o = lib.ValidateCfg(string(p), string(d), nil, lib.Epoch2000, rc)
+				clock := lib.Epoch2000
+				if len(parts) == 4 {
+					var ki int
+					fmt.Sscan(parts[3], &ki)
+					if ki >= 0 && ki < len(c09Clocks) {
+						clock = c09Clocks[ki]
+					}
+				}
+				o = lib.ValidateCfg(string(p), string(d), nil, clock, rc)
 			}
 		}
 		if o.Failed() {
@@ -103,4 +118,40 @@ func childMain(args []string) {
 		fmt.Fprintln(os.Stderr, "child: unknown mode")
 		os.Exit(2)
 	}
+}
+
+func childEnvCalls(outFile string) {
+	var lines []string
+	note := func(name string, o lib.Outcome) {
+		switch {
+		case o.Panic != nil:
+			lines = append(lines, name+" PANIC "+fmt.Sprint(o.Panic))
+		case o.Err != nil:
+			lines = append(lines, name+" error")
+		default:
+			lines = append(lines, name+" report "+fmt.Sprint(len(o.Report)))
+		}
+		_ = os.WriteFile(outFile, []byte(strings.Join(lines, "\n")+"\n"), 0o644)
+	}
+	noElement := strings.Replace(lib.SourceMapDoc(), `"http://a.ml/vocabularies/document-source-maps#element":[{"@value":"http://ex.org/n1"}],`, "", 1)
+	noRoot := strings.Replace(lib.SourceMapDoc(), `,"http://a.ml/vocabularies/document#rootLocation":[{"@value":"file:///root.yaml"}]`, "", 1)
+	notCompact := "profile: x\nviolation: [v]\nvalidations:\n  v:\n    targetClass: EndPoint\n    propertyConstraints:\n      nope.a:\n        minCount: 1\n"
+	good := lib.Compile(c17GoodProfile, nil)
+	for round := 0; round < 3; round++ {
+		for _, d := range []string{noElement, noRoot, `{"@graph":5}`, `{"@context": 5}`, "not json", c11GoodData, "{}"} {
+			note("Validate", lib.ValidateDefault(c17GoodProfile, d, nil))
+			note("ValidateWithConfiguration", lib.Validate(c17GoodProfile, d))
+			if !good.Failed() {
+				note("ValidateCompiled", lib.ValidateCompiledDefault(good.Q, d, nil))
+				note("ValidateCompiledWithConfiguration", lib.ValidateCompiled(good.Q, d))
+			}
+		}
+		for _, p := range []string{notCompact, "a: [", "", c11KeysProfile} {
+			c := lib.Compile(p, nil)
+			note("CompileProfile", lib.Outcome{Err: c.Err, Panic: c.Panic})
+			note("Validate", lib.ValidateDefault(p, c11GoodData, nil))
+		}
+	}
+	lines = append(lines, "DONE")
+	_ = os.WriteFile(outFile, []byte(strings.Join(lines, "\n")+"\n"), 0o644)
 }
